@@ -23,6 +23,17 @@ import os
 from harness import common
 from harness.common import Check
 
+def _rm_cases(name):
+    """case files are named per process (concurrent runs of one check must not share them) and removed after evaluation"""
+    import glob
+
+    for q in glob.glob(os.path.join(common.GEN, f"Cases_{name}_*.v")):
+        try:
+            os.remove(q)
+        except OSError:
+            pass
+
+
 REGISTRY = dict(
     text=("Proof (protocol model, unbounded; atomic public calls only, legal argument shapes): for every worker behaviour, every number of workers, every parent program of sends/receives and EVERY schedule of parent/worker steps, "
           "the values the parent receives equal those of the sequential DummyVecEnv-order run, in sub-environment order (schedule independence by per-pipe FIFO + index-order "
@@ -66,7 +77,7 @@ def gen_indices(rng, n):
     return idx
 
 
-def gen_case(rng, idx, start_method="fork", max_n=3):
+def gen_case(rng, idx, start_method="fork", max_n=3, dyn=False):
     from harness import scripted_envs as se
 
     obs_kind = OBS_KINDS[idx % len(OBS_KINDS)]
@@ -106,6 +117,18 @@ def gen_case(rng, idx, start_method="fork", max_n=3):
             calls.append(["env_method", rng.randint(1, 999), gen_indices(rng, n)])
         else:
             calls.append(["is_wrapped", gen_indices(rng, n)])
+    if dyn:
+        # set_attr on an attribute that lives on the inner environment and changes later steps; read back through the wrapper
+        # (get_attr) and from the inner environment itself (env_method); such histories are compared class against class only
+        extra = []
+        for c in calls:
+            extra.append(c)
+            if c[0] == "step" and rng.random() < 0.35:
+                extra.append(rng.choice([["set_dyn", rng.randint(1, 9) * 1000, gen_indices(rng, n)], ["get_dyn", gen_indices(rng, n)], ["read_dyn", gen_indices(rng, n)]]))
+        if not any(c[0] == "set_dyn" for c in extra):
+            k = next(i for i, c in enumerate(extra) if c[0] == "reset") + 1
+            extra[k:k] = [["set_dyn", 5000, None], ["get_dyn", None], ["read_dyn", None]]
+        calls = extra
     n_steps = sum(1 for c in calls if c[0] == "step") + 2
     pattern = rng.choice(["random", "reversed", "straggler", "none"])
     sleeps = []
@@ -121,7 +144,7 @@ def gen_case(rng, idx, start_method="fork", max_n=3):
     wrapped = [rng.random() < 0.4 for _ in range(n)]
     reset_delays = [0.0 if pattern == "none" else rng.choice([0.0, 0.004, 0.012]) for _ in range(n)]
     return {"obs_kind": obs_kind, "act_kind": act_kind, "n": n, "scripts": scripts, "calls": calls, "sleeps": sleeps, "wrapped": wrapped,
-            "end": rng.choice(["close", "close", "close_twice", "close_while_waiting"]), "actions_as_list": rng.random() < 0.2, "reset_delays": reset_delays,
+            "dyn_calls": bool(dyn), "end": rng.choice(["close", "close", "close_twice", "close_while_waiting"]), "actions_as_list": rng.random() < 0.2, "reset_delays": reset_delays,
             "delay_pattern": pattern, "start_method": start_method, "schedule": [rng.randrange(64) for _ in range(400)], "id": idx}
 
 
@@ -142,7 +165,7 @@ def wrapper_class():
     return TimeLimit
 
 
-def make_fn(script, wrapped, reset_delay=0.0, **kw):
+def make_fn(script, wrapped, reset_delay=0.0, slow_wrapper=False, **kw):
     """constructor of one sub-environment, optionally wrapped in a pass-through gym wrapper; reset_delay makes reset() slow
     (ScriptedEnv's own sleep plan only delays step())"""
     def _f():
@@ -153,11 +176,25 @@ def make_fn(script, wrapped, reset_delay=0.0, **kw):
 
         from harness import scripted_envs as se
 
-        env = se.ScriptedEnv(script, **kw)
-        if reset_delay:
+        class DynEnv(se.ScriptedEnv):
+            """ScriptedEnv with an attribute on the INNER environment that drives its dynamics: info tags are shifted by it"""
+
+            def step(self, action):
+                obs, rew, term, trunc, info = super().step(action)
+                if self.info_shift and "tag" in info:
+                    info = dict(info, tag=info["tag"] + self.info_shift)
+                return obs, rew, term, trunc, info
+
+            def read_shift(self):
+                return self.info_shift
+
+        env = DynEnv(script, **kw)
+        env.info_shift = 0
+        if reset_delay or slow_wrapper:      # the SAME wrapper structure on both classes; only the SubprocVecEnv side really sleeps
             class SlowReset(gym.Wrapper):
                 def reset(self, **kwargs):
-                    time.sleep(reset_delay)
+                    if reset_delay:
+                        time.sleep(reset_delay)
                     return self.env.reset(**kwargs)
 
             env = SlowReset(env)
@@ -171,8 +208,8 @@ def make_pair(case):
 
     kw = dict(obs_kind=case["obs_kind"], act_kind=case["act_kind"])
     wr = case.get("wrapped") or [False] * case["n"]
-    dummy = DummyVecEnv([make_fn(sc, wr[i], env_id=i, **kw) for i, sc in enumerate(case["scripts"])])
     rd = case.get("reset_delays") or [0.0] * case["n"]
+    dummy = DummyVecEnv([make_fn(sc, wr[i], slow_wrapper=bool(rd[i]), env_id=i, **kw) for i, sc in enumerate(case["scripts"])])
     sub = SubprocVecEnv([make_fn(sc, wr[i], reset_delay=rd[i], env_id=i, sleep_plan=case["sleeps"][i], **kw) for i, sc in enumerate(case["scripts"])],
                         start_method=case["start_method"] if "start_method" in case else "fork")
     return dummy, sub
@@ -209,6 +246,12 @@ def do_call(venv, case, call):
             d["k"] = -777
     elif call[0] == "has_attr":
         ret = venv.has_attr(call[1])
+    elif call[0] == "set_dyn":
+        ret = venv.set_attr("info_shift", call[1], indices=call[2])
+    elif call[0] == "get_dyn":
+        ret = venv.get_attr("info_shift", indices=call[1])
+    elif call[0] == "read_dyn":
+        ret = venv.env_method("read_shift", indices=call[1])
     elif call[0] == "get_attr":
         ret = venv.get_attr("attr_value", indices=call[1])
     elif call[0] == "set_attr":
@@ -449,6 +492,8 @@ def model_log(val):
 
 
 def integral_rewards(case):
+    if case.get("dyn_calls"):
+        return False       # histories with the dynamics-driving attribute are outside the Coq model's call language
     return all(isinstance(st["r4"], int) for s in case["scripts"] for e in s["episodes"] for st in e["steps"])
 
 
@@ -494,7 +539,7 @@ def main():
         # forkserver / spawn start a fresh interpreter per worker (several seconds): thorough tier only, every 5th history;
         # start_method=None (the constructor's own default, forkserver where available) every 50th
         method = "fork" if quick or k % 5 else ("forkserver" if k % 10 else ("spawn" if k % 50 else None))
-        cases.append(gen_case(chk.rng, k, start_method=method, max_n=3 if quick or method != "fork" else 5))
+        cases.append(gen_case(chk.rng, k, start_method=method, max_n=3 if quick or method != "fork" else 5, dyn=(k % 4 == 1)))
     hist = {"start_method": {}, "delay_pattern": {}, "obs_kind": {}, "n_envs": {}, "calls": {}, "total_calls": 0, "model_compared": 0}
     distinct = set()
     results = []
@@ -524,7 +569,8 @@ def main():
     # protocol model under a random schedule on the same calls
     mcases = [i for i, c in enumerate(cases) if integral_rewards(c) and results[i][1] is not None]
     exprs = [e for i in mcases for e in model_exprs(cases[i])]
-    vals = common.coq_eval_many("C02", HEADER, exprs, shard=40, procs=4) if exprs else []
+    vals = common.coq_eval_many(f"C02_{os.getpid()}", HEADER, exprs, shard=40, procs=4) if exprs else []
+    _rm_cases(f"C02_{os.getpid()}")
     mvals = {i: (vals[2 * k], vals[2 * k + 1]) for k, i in enumerate(mcases)}
     for i, (c, (probs, trace)) in enumerate(zip(cases, results)):
         sm = str(c.get("start_method", "fork"))
